@@ -254,4 +254,48 @@ def combine (hists : List (List (Bin α))) : List (Bin α) :=
 
 def binTotal (l : List (Bin α)) : α := total (l.map (·.v))
 
+/-! ## Unoccupied classes: NaN contents (`nan_default=True`) -/
+
+/-- A histogram class whose content may be NaN ("not occupied"): `none`. -/
+structure OBin (α : Type) where
+  l : α
+  r : α
+  v : Option α
+
+/-- `.dropna()`: the classes that carry a number. -/
+def present : List (OBin α) → List (Bin α)
+  | [] => []
+  | b :: bs => match b.v with
+    | some v => ⟨b.l, b.r, v⟩ :: present bs
+    | none => present bs
+
+/-- pandas' `Interval.overlaps` for right-closed classes. -/
+def overlapsB (tl tr : α) (s : Bin α) : Bool := decide (s.l < tr) && decide (tl < s.r)
+
+/-- `aggregate_hist(interval)` with NaN handling: `occupied = hist.loc[overlaps].dropna()`; no occupied class →
+the default (`NaN` if `nan_default` else `0.0`), else the sum of the shares. -/
+def aggregateOpt (nanDefault : Bool) (src : List (OBin α)) (tl tr : α) : Option α :=
+  let occ := (present src).filter (overlapsB tl tr)
+  if occ.isEmpty then (if nanDefault then none else some 0.0)
+  else some (total (occ.map (share tl tr)))
+
+/-- `rebin_histogram(src, from_breaks(breaks), nan_default)`. -/
+def rebinOpt (nanDefault : Bool) (src : List (OBin α)) (breaks : List α) : List (Option α) :=
+  (pairs breaks).map fun p => aggregateOpt nanDefault src p.1 p.2
+
+def rebinOptBins (nanDefault : Bool) (src : List (OBin α)) (breaks : List α) : List (OBin α) :=
+  (pairs breaks).map fun p => ⟨p.1, p.2, aggregateOpt nanDefault src p.1 p.2⟩
+
+/-- `np.nansum`: total with NaN counted as nothing. -/
+def ototal (l : List (Option α)) : α := total (l.map fun v => v.getD 0.0)
+
+/-- groupby-`sum` skips NaN: a NaN content adds nothing to its class (the class itself stays in the result,
+with `0.0` if no histogram has a number there). -/
+def combineOpt (hists : List (List (OBin α))) : List (Bin α) :=
+  combine (hists.map fun h => h.map fun b => ⟨b.l, b.r, b.v.getD 0.0⟩)
+
+/-- The pipeline of the `combine_histogram` docstring: every histogram re-binned to one common binning, then combined. -/
+def rebinCombine (nanDefault : Bool) (hists : List (List (OBin α))) (breaks : List α) : List (Bin α) :=
+  combineOpt (hists.map fun h => rebinOptBins nanDefault h breaks)
+
 end PylifeVerif.Collective
